@@ -191,17 +191,21 @@ def leg_loop(part, tier, shard, nshards):
 
 
 SESSION_STEPS = [("f", "pos1"), ("ns.f", "kw2"), ("a.b.c", "pos2"), ("BATCH", ""), ("NOTIFY", "pos1"), ("REREG", "f"), ("REREG", "a.b.c"), ("REREG", "ns.f"), ("CLEAR", ""),
-                 ("MC-NOTIFS", ""), ("MC-CALL", "")]  # the last two use one MultiCall object for the whole session
+                 ("MC-NOTIFS", ""), ("MC-CALL", ""),  # these two use one MultiCall object for the whole session
+                 ("NOTIFY-SAME", "pos1"), ("CALL-SAMEID", ""),
+                 ("HELD", "ns.f"), ("HELD", "a.b.c"), ("HELD", "f")]  # method objects obtained once per session (ns = proxy.ns; a = proxy.a; f = proxy.f) and used again and again  # the same notification text every time (a 2.0 notification carries no id): repeated exchanges are recorded as often as they happen
 
 
 def session_cases(tier):
     leaves = gen.SMALL_LEAVES + [2 ** 53, -0.0, "\U0001F600", [1, [2]], {"k": {"a": None}}]
     steps = SESSION_STEPS
-    L = 5 if tier == "thorough" else 3
-    for seq in itertools.product(range(len(steps)), repeat=L):
-        for vi in ((0, 5, 11) if L < 5 else (0,)):
-            for ver in (VERSIONS if tier == "thorough" else VERSIONS[:2]):
-                yield (seq, vi, ver)
+    # quick: every sequence of 3 of the 16 steps; thorough: every sequence of 4, and every sequence of 5 of the first 11 steps
+    plans = [(3, len(steps), (0, 5, 11))] if tier != "thorough" else [(4, len(steps), (0, 5, 11)), (5, 11, (0,))]
+    for L, n, vis in plans:
+        for seq in itertools.product(range(n), repeat=L):
+            for vi in vis:
+                for ver in (VERSIONS if tier == "thorough" else VERSIONS[:2]):
+                    yield (seq, vi, ver)
 
 
 def check_session(case):
@@ -217,6 +221,7 @@ def check_session(case):
     proxy = jsonrpclib.ServerProxy("http://h/", transport=t, version=cv, history=hist)
     base = 0  # index of the first exchange after the last History.clear()
     shared_mc = jsonrpclib.MultiCall(proxy)
+    held = {"ns": proxy.ns, "a": proxy.a, "f": proxy.f}
     for pos, si in enumerate(seq):
         name, style = steps[si]
         v = leaves[(vi + pos * 3) % len(leaves)]
@@ -254,7 +259,20 @@ def check_session(case):
                 got = list(mc())
                 if not gen.same(got, [gen.normalise(r)]) or len(reg.log) != 2:
                     out.bad("C01/session/batch-differs", "session %r step %d: batch results %r, log %r" % (case, pos, got, reg.log))
-            elif name == "NOTIFY":
+            elif name == "HELD":
+                args, kwargs = build_args({"ns.f": "kw2", "a.b.c": "pos2", "f": "pos1"}[style], v, w)
+                m = held[style.split(".")[0]]
+                for seg in style.split(".")[1:]:
+                    m = getattr(m, seg)
+                got = m(*args, **kwargs)
+                judge_call(out, "session", reg, style, args, kwargs, r, got, None)
+            elif name == "CALL-SAMEID":  # a caller-supplied id: the request text, and here the reply text too, repeat verbatim
+                reg.ret = leaves[7]
+                got = proxy._request("f", [leaves[1]], rpcid="same")
+                judge_call(out, "session", reg, "f", (leaves[1],), {}, leaves[7], got, None)
+            elif name in ("NOTIFY", "NOTIFY-SAME"):
+                if name == "NOTIFY-SAME":
+                    v = leaves[1]
                 got = proxy._notify.f(v)
                 if got is not None or not gen.same(gen.normalise([list(e) for e in reg.log]), gen.normalise([["f", [v], {}]])):
                     out.bad("C01/session/notification-differs", "session %r step %d: returned %r, log %r" % (case, pos, got, reg.log))
@@ -677,8 +695,8 @@ META = {
     "dispatcher (loopback) and through real servers over kernel TCP/Unix sockets, with a recording callable and type-exact comparison",
     "rule": "loopback: 9 method names (identifier, dotted registered name, instance attribute path, non-ASCII, with space, hyphen, underscore, keyword) x 5 "
     "argument styles x 23 leaf values x client/server versions {1.0,2.0}^2 x translation on/off x {plain, dotted chain}; plus every JSON value of depth <=1 "
-    "(thorough <=2, capped at 300000) width <=2 as argument and return value; sessions: every sequence of 3 (thorough 5) steps over {4 calls, batch, notification, "
-    "re-registration of a name, History.clear()} on one proxy with one History (the newest registration must be the one invoked); translation-off: payloads with "
+    "(thorough <=2, capped at 300000) width <=2 as argument and return value; sessions: every sequence of 3 (thorough 4; 5 over the first 11) steps over {3 calls, batch, notification, "
+    "re-registration of a name, History.clear(), reused MultiCall, the same notification text, the same caller-supplied id, method objects held since the start of the session} on one proxy with one History (the newest registration must be the one invoked); translation-off: payloads with "
     "'__jsonclass__' members as plain data through loopback and real servers configured with use_jsonclass=False; multicall: every batch of <=3 jobs over 6 job kinds (calls and notifications) x "
     "values x server version; kernel-sockets: SimpleJSONRPCServer and PooledJSONRPCServer x TCP/Unix x versions x 29 values (leaves, nested, >1 KiB "
     "multi-byte, >2 KiB of blanks); python-values: 23 values of non-exact Python types (OrderedDict, Counter, defaultdict, dict/list/str/int subclasses, tuples, "
